@@ -1,5 +1,420 @@
 import GnpyModel.Scalar
-/- model file Edfa (see DESIGN.md §2) -/
-namespace Gnpy
+/-
+C04 — amplifier (gnpy/core/elements.py `Edfa.interpol_params/_nf/_calc_nf/noise_profile/_gain_profile/
+propagate/__call__`, gnpy/core/science_utils.py `estimate_nf_model`, gnpy/tools/json_io.py `Amp.from_json`,
+`_update_dual_stage`; numpy `linspace`, `interp`, `polyval`, degree-1 `polyfit`).
 
-end Gnpy
+Conventions
+* a noise figure in dB is an `Option α`: `none` stands for `-inf` (the OpenROADM booster is modelled by the
+  code as a zero-noise amplifier with NF = `float('-inf')`); `db2linE none = 0`.
+* frequencies and slot widths are integer Hz (`Nat`): the band filter is decided exactly; they are cast to
+  `α` where the code computes with them.
+* `Edfa.effective_gain` is *state*: `interpol_params` overwrites it with the clamped value, so the "set"
+  argument of `effGain` on a later call of the same object is the value left by the previous call
+  (`callSeq`).
+-/
+namespace Gnpy.Edfa
+
+section
+variable {α : Type} [Add α] [Sub α] [Mul α] [Div α] [Neg α] [NatCast α] [LT α] [LE α]
+  [DecidableLT α] [DecidableLE α] [Transc α]
+
+/-! ### literals -/
+def zero : α := ((0:Nat) : α)
+/-- `0.3` -/
+def c03 : α := ((3:Nat) : α) / ((10:Nat) : α)
+/-- `0.01` -/
+def c001 : α := ((1:Nat) : α) / ((100:Nat) : α)
+/-- `0.05` -/
+def c005 : α := ((5:Nat) : α) / ((100:Nat) : α)
+/-- `1e-9` (default `rel_tol` of `math.isclose`) -/
+def cNano : α := ((1:Nat) : α) / ((1000000000:Nat) : α)
+/-- `1e-11` (`err_tolerance`) -/
+def cTol : α := ((1:Nat) : α) / ((100000000000:Nat) : α)
+/-- Planck constant `scipy.constants.h = 6.62607015e-34` J·s -/
+def planck : α := ((662607015:Nat) : α) / ((1000000000000000000000000000000000000000000:Nat) : α)
+/-- `50e9` -/
+def c50G : α := ((50000000000:Nat) : α)
+
+/-! ### saturation clamp (`interpol_params`) -/
+
+/-- `self.effective_gain = min(self.effective_gain, self.params.p_max - self.pin_db)` -/
+def effGain (set pmax pinDbm : α) : α := smin set (pmax - pinDbm)
+
+/-- the gain state after a sequence of calls with total input powers `pins` (dBm) -/
+def callSeq (set pmax : α) : List α → α
+  | [] => set
+  | p :: ps => callSeq (effGain set pmax p) pmax ps
+
+/-! ### noise-figure models (`_nf`, `_calc_nf`) -/
+
+inductive NfModel (α : Type) where
+  | variableGain (nf1 nf2 deltaP : α)
+  | fixedGain (nf0 : α)
+  | openroadm (coef : List α)
+  | openroadmPreamp
+  | openroadmBooster
+  | advanced (coef : List α)
+
+/-- one amplifier stage as `_nf` sees it: `(type_def+nf_model+nf_fit_coeff, gain_min, gain_flatmax)` -/
+structure Stage (α : Type) where
+  model : NfModel α
+  gainMin : α
+  gainFlatmax : α
+
+/-- `self.pin_db`, `self.nch`, `self.slot_width` (used by the OpenROADM models only) -/
+structure Load (α : Type) where
+  pinDb : α
+  nch : α
+  slotWidth : α
+
+inductive AmpNf (α : Type) where
+  | single (s : Stage α)
+  | dual (pre boost : Stage α)
+
+/-- numpy `polyval` (Horner, highest degree first) -/
+def polyval (p : List α) (x : α) : α := p.foldl (fun y c => y * x + c) zero
+
+def db2linE : Option α → α
+  | none => zero
+  | some x => db2lin x
+
+/-- `pad = max(gain_min - gain_target, 0)` -/
+def padOf (gainMin g : α) : α := smax (gainMin - g) zero
+
+/-- `dg = max(gain_flatmax - gain_target, 0)` (after padding) -/
+def dgOf (gainFlatmax g : α) : α := smax (gainFlatmax - g) zero
+
+/-- variable-gain NF at padded gain `g` : `lin2db(db2lin(nf1) + db2lin(nf2) / db2lin(g1a))` -/
+def nfVar (nf1 nf2 deltaP gainFlatmax g : α) : α :=
+  lin2db (db2lin nf1 + db2lin nf2 / db2lin (g - deltaP - dgOf gainFlatmax g))
+
+/-- `pin_ch_50GHz = self.pin_db - lin2db(self.nch) + lin2db(50e9 / self.slot_width)` -/
+def pinCh50 (ld : Load α) : α := ld.pinDb - lin2db ld.nch + lin2db (c50G / ld.slotWidth)
+
+/-- the un-padded NF of one stage at (already padded) gain `g` -/
+def nfCore (s : Stage α) (ld : Load α) (g : α) : Option α :=
+  match s.model with
+  | .variableGain nf1 nf2 dp => some (nfVar nf1 nf2 dp s.gainFlatmax g)
+  | .fixedGain nf0 => some nf0
+  | .openroadm coef =>
+      let x := pinCh50 ld
+      some (x - polyval coef x + ((58:Nat) : α))
+  | .openroadmPreamp =>
+      let x := pinCh50 ld
+      some (x - smin ((((4:Nat) : α) * x + ((275:Nat) : α)) / ((7:Nat) : α)) ((33:Nat) : α) + ((58:Nat) : α))
+  | .openroadmBooster => none
+  | .advanced coef => some (polyval coef (-(dgOf s.gainFlatmax g)))
+
+/-- `Edfa._nf` : returns `(nf_avg + pad, pad)` -/
+def stageNf (s : Stage α) (ld : Load α) (g : α) : Option α × α :=
+  let pad := padOf s.gainMin g
+  ((nfCore s ld (g + pad)).map (fun x => x + pad), pad)
+
+/-- `lin2db(db2lin(nf1_avg) + db2lin(nf2_avg - g1))` -/
+def dualNf (n1 n2 : Option α) (g1 : α) : Option α :=
+  match n1, n2 with
+  | none, none => none
+  | _, _ => some (lin2db (db2linE n1 + db2linE (n2.map (fun x => x - g1))))
+
+/-- `Edfa._calc_nf(avg=True)` together with `att_in` -/
+def ampNfAvg (a : AmpNf α) (ld : Load α) (eff : α) : Option α × α :=
+  match a with
+  | .single s => stageNf s ld eff
+  | .dual pre boost =>
+      let g1 := pre.gainFlatmax
+      let n1 := (stageNf pre ld g1).1
+      let n2 := (stageNf boost ld (eff - g1)).1
+      (dualNf n1 n2 g1, zero)
+
+/-! ### `estimate_nf_model` -/
+
+inductive NfErr where
+  | nfMin | nfMax | zeroDiv | firstCoil | deltaP | calcMin | calcMax
+  deriving DecidableEq, Repr
+
+def NfErr.toString : NfErr → String
+  | .nfMin => "nf_min" | .nfMax => "nf_max" | .zeroDiv => "ZeroDivisionError" | .firstCoil => "first_coil" | .deltaP => "delta_p"
+  | .calcMin => "calc_nf_min" | .calcMax => "calc_nf_max"
+
+/-- `math.isclose(a, b, abs_tol=0.01)` -/
+def isclose01 (a b : α) : Bool :=
+  Transc.abs (a - b) ≤ smax (cNano * smax (Transc.abs a) (Transc.abs b)) c001
+
+/-- numpy `clip` -/
+def clip (x lo hi : α) : α := smin (smax x lo) hi
+
+/-- the denominator `1 / db2lin(g1a_max) - 1 / db2lin(g1a_min)` (Python floats: a zero here is a
+`ZeroDivisionError`, which happens exactly when `gain_min = gain_max`) -/
+def estDen (gmin gmax : α) : α :=
+  let dp : α := ((5:Nat) : α)
+  ((1:Nat) : α) / db2lin (gmax - dp) - ((1:Nat) : α) / db2lin (gmin - (gmax - gmin) - dp)
+
+/-- second-coil NF of the unclipped solution -/
+def estNf2 (gmin gmax nfmin nfmax : α) : α :=
+  let dp : α := ((5:Nat) : α)
+  let g1aMin := gmin - (gmax - gmin) - dp
+  let g1aMax := gmax - dp
+  lin2db ((db2lin nfmin - db2lin nfmax) / (((1:Nat) : α) / db2lin g1aMax - ((1:Nat) : α) / db2lin g1aMin))
+
+/-- first-coil NF of the unclipped solution -/
+def estNf1 (gmin gmax nfmin nfmax : α) : α :=
+  lin2db (db2lin nfmin - db2lin (estNf2 gmin gmax nfmin nfmax) / db2lin (gmax - ((5:Nat) : α)))
+
+/-- every intermediate value of `estimate_nf_model` -/
+structure EstCore (α : Type) where
+  nf1 : α
+  nf2raw : α
+  inRange : Bool
+  nf2 : α
+  g1aMax : α
+  dp : α
+  g1aMin : α
+  calcMin : α
+  calcMax : α
+
+def estCore (gmin gmax nfmin nfmax : α) : EstCore α :=
+  let dp0 : α := ((5:Nat) : α)
+  let nf2 := estNf2 gmin gmax nfmin nfmax
+  let nf1 := estNf1 gmin gmax nfmin nfmax
+  let inRange : Bool := decide (nf1 + c03 < nf2) && decide (nf2 < nf1 + ((2:Nat) : α))
+  let nf2' := if inRange then nf2 else clip nf2 (nf1 + c03) (nf1 + ((2:Nat) : α))
+  let g1aMax := if inRange then gmax - dp0 else lin2db (db2lin nf2' / (db2lin nfmin - db2lin nf1))
+  let dp := if inRange then dp0 else gmax - g1aMax
+  let g1aMin := gmin - (gmax - gmin) - dp
+  { nf1 := nf1, nf2raw := nf2, inRange := inRange, nf2 := nf2', g1aMax := g1aMax, dp := dp, g1aMin := g1aMin,
+    calcMin := lin2db (db2lin nf1 + db2lin nf2' / db2lin g1aMax),
+    calcMax := lin2db (db2lin nf1 + db2lin nf2' / db2lin g1aMin) }
+
+/-- `estimate_nf_model(type_variety, gain_min, gain_max, nf_min, nf_max)` → `(nf1, nf2, delta_p)` -/
+def estimateNfModel (gmin gmax nfmin nfmax : α) : Except NfErr (α × α × α) :=
+  if nfmin < -(((10:Nat) : α)) then .error .nfMin
+  else if nfmax < -(((10:Nat) : α)) then .error .nfMax
+  else if ¬ (estDen gmin gmax < zero) ∧ ¬ (zero < estDen gmin gmax) then .error .zeroDiv
+  else
+    let c := estCore gmin gmax nfmin nfmax
+    if c.nf1 < ((4:Nat) : α) then .error .firstCoil
+    else if !c.inRange && !(decide (((1:Nat) : α) < c.dp) && decide (c.dp < ((11:Nat) : α))) then .error .deltaP
+    else if !isclose01 nfmin c.calcMin then .error .calcMin
+    else if !isclose01 nfmax c.calcMax then .error .calcMax
+    else .ok (c.nf1, c.nf2, c.dp)
+
+/-- `_update_dual_stage`: a dual-stage entry whose `gain_min` is below its preamp's is rejected -/
+def dualStageOk (gainMin preGainMin : α) : Bool := !decide (gainMin < preGainMin)
+
+/-! ### `Amp.from_json`: which NF definition a library entry yields, or how it is rejected -/
+
+/-- result: the `type_def` whose model is built, or the error kind (`EquipmentConfigError` / `KeyError`).
+`typeDef = none` ⇒ default `variable_gain`.  `has k` = key `k` present in the entry; `hasCfg` = the named
+advanced/default configuration exists in `extra_configs`. `est` = the error kind `estimate_nf_model` raises
+for the entry's values (`none` = accepted). -/
+def fromJsonKind (typeDef : Option String) (has : String → Bool) (hasCfg : Bool) (est : Option String) :
+    Except String String :=
+  let td := typeDef.getD "variable_gain"
+  if td == "fixed_gain" then
+    if has "default_config_from_json" && !hasCfg then .error "KeyError"
+    else if !has "nf0" then .error "EquipmentConfigError" else .ok td
+  else if td == "advanced_model" then
+    if !has "advanced_config_from_json" then .error "KeyError"
+    else if !hasCfg then .error "KeyError" else .ok td
+  else if td == "variable_gain" then
+    if has "default_config_from_json" && !hasCfg then .error "KeyError"
+    else if !has "gain_min" || !has "gain_flatmax" then .error "KeyError"
+    else if !has "nf_min" || !has "nf_max" then .error "EquipmentConfigError"
+    else match est with
+      | some e => .error e
+      | none => .ok td
+  else if td == "openroadm" then
+    if !has "nf_coef" then .error "EquipmentConfigError" else .ok td
+  else if td == "openroadm_preamp" || td == "openroadm_booster" then .ok td
+  else if td == "dual_stage" then
+    if !has "preamp_variety" || !has "booster_variety" then .error "EquipmentConfigError" else .ok td
+  else if td == "multi_band" then
+    if !has "amplifiers" then .error "KeyError" else .ok td
+  else .error "EquipmentConfigError"
+
+/-! ### numpy `linspace` / `interp` -/
+
+/-- `numpy.linspace(start, stop, n)` -/
+def linspace (start stop : α) (n : Nat) : List α :=
+  if n = 0 then []
+  else if n = 1 then [start]
+  else
+    let step := (stop - start) / ((n - 1 : Nat) : α)
+    (List.range n).map (fun i => if i = n - 1 then stop else ((i : Nat) : α) * step + start)
+
+def interpGo (x : α) : α × α → List (α × α) → α
+  | (_, f0), [] => f0
+  | (x0, f0), (x1, f1) :: rest =>
+      if x < x1 then (f1 - f0) / (x1 - x0) * (x - x0) + f0 else interpGo x (x1, f1) rest
+
+/-- `numpy.interp(x, xp, fp)` for increasing `xp` (constant extrapolation) -/
+def interp (xp fp : List α) (x : α) : α :=
+  match xp.zip fp with
+  | [] => zero
+  | (x0, f0) :: rest => if x < x0 then f0 else interpGo x (x0, f0) rest
+
+/-- `interp(freq, arrange_frequencies(len(v), f_min, f_max), v)` -/
+def interpolOnBand (fmin fmax : α) (v : List α) (freqs : List α) : List α :=
+  let xp := linspace fmin fmax v.length
+  freqs.map (interp xp v)
+
+/-! ### ASE (`noise_profile`) -/
+
+/-- `h * baud_rate * frequency * db2lin(nf)`  (W, referred to the amplifier input) -/
+def ase (baud f : α) (nf : Option α) : α := planck * baud * f * db2linE nf
+
+/-! ### gain profile (`_gain_profile`) -/
+
+def mean (l : List α) : α := sumL l / ((l.length : Nat) : α)
+
+def maxL : List α → α
+  | [] => zero
+  | x :: xs => xs.foldl (fun a b => if a < b then b else a) x
+
+def minL : List α → α
+  | [] => zero
+  | x :: xs => xs.foldl (fun a b => if b < a then b else a) x
+
+/-- slope of the degree-1 least-squares fit (`polyfit(x, y, 1)[0]`), closed form -/
+def fitSlope (xs ys : List α) : α :=
+  let xm := mean xs
+  let ym := mean ys
+  sumL ((xs.zip ys).map (fun p => (p.1 - xm) * (p.2 - ym))) / sumL (xs.map (fun x => (x - xm) * (x - xm)))
+
+/-- `watt2dbm(sum(pin * db2lin(g))) - tot_in_power_db` -/
+def avgGain (pin g : List α) (pinDb : α) : α :=
+  watt2dbm (sumL ((pin.zip g).map (fun p => p.1 * db2lin p.2))) - pinDb
+
+/-- `g1st = gain_ripple + gain_flatmax + dgt * dgts1` -/
+def g1st (ripple dgt : List α) (gainFlatmax dgts1 : α) : List α :=
+  (ripple.zip dgt).map (fun p => p.1 + gainFlatmax + p.2 * dgts1)
+
+/-- `voa = lin2db(mean(db2lin(g1st))) - effective_gain` -/
+def voaOf (g : List α) (eff : α) : α := lin2db (mean (g.map db2lin)) - eff
+
+/-- `g1st - voa + dgt * x` -/
+def shifted (g dgt : List α) (voa x : α) : List α := (g.zip dgt).map (fun p => p.1 - voa + p.2 * x)
+
+/-- the flat branch: `g1st - voa` -/
+def flatProfile (g : List α) (eff : α) : List α := g.map (fun x => x - voaOf g eff)
+
+/-- `Edfa._gain_profile(pin)`; second component: distance of `deltax` to the `0.05` threshold -/
+def gainProfile (freqs dgt ripple pin : List α) (eff gainFlatmax tilt fmin fmax pinDb : α) : List α × α :=
+  if dgt.length = 1 then ([eff], ((1:Nat) : α))
+  else
+    let dgtSlope := fitSlope freqs dgt
+    let targSlope := -tilt / (fmax - fmin)
+    let dgts1 := if dgtSlope < zero ∨ zero < dgtSlope then targSlope / dgtSlope else zero
+    let g1 := g1st ripple dgt gainFlatmax dgts1
+    let voa := voaOf g1 eff
+    let g2nd := g1.map (fun x => x - voa)
+    let dgts2 := eff - avgGain pin g2nd pinDb
+    let xcent := dgts2
+    let gavgCent := avgGain pin (shifted g1 dgt voa xcent) pinDb
+    let deltax := maxL g1 - minL g1
+    let margin := Transc.abs (Transc.abs deltax - c005)
+    if Transc.abs deltax ≤ c005 then (g2nd, margin)
+    else
+      let xlow := dgts2 - deltax
+      let gavgLow := avgGain pin (shifted g1 dgt voa xlow) pinDb
+      let xhigh := dgts2 + deltax
+      let gavgHigh := avgGain pin (shifted g1 dgt voa xhigh) pinDb
+      let slope1 := (gavgLow - gavgCent) / (xlow - xcent)
+      let slope2 := (gavgCent - gavgHigh) / (xcent - xhigh)
+      let dgts3 :=
+        if Transc.abs (eff - gavgCent) ≤ cTol then xcent
+        else if eff < gavgCent then xcent - (gavgCent - eff) / slope1
+        else xcent + (-gavgCent + eff) / slope2
+      (shifted g1 dgt voa dgts3, margin)
+
+/-! ### the whole crossing (`__call__` → `propagate` → `interpol_params`) -/
+
+structure Chan (α : Type) where
+  f : Nat
+  slot : Nat
+  baud : α
+  p : α
+
+/-- `is_in_band`: `f - slot/2 ≥ f_min ∧ f + slot/2 ≤ f_max` (decided on integers) -/
+def inBand (fmin fmax : Nat) (f slot : Nat) : Bool := decide (2 * fmin + slot ≤ 2 * f) && decide (2 * f + slot ≤ 2 * fmax)
+
+/-- `demuxed_spectral_information`: the channels kept, in order -/
+def demux (fmin fmax : Nat) (cs : List (Chan α)) : List (Chan α) := cs.filter (fun c => inBand fmin fmax c.f c.slot)
+
+structure Amp (α : Type) where
+  fMin : Nat
+  fMax : Nat
+  gainFlatmax : α
+  pMax : α
+  nf : AmpNf α
+  dgt : List α
+  gainRipple : List α
+  nfRipple : List α
+
+/-- operational settings; `gain` is the *current* `effective_gain` attribute -/
+structure Oper (α : Type) where
+  gain : α
+  tilt : α
+  inVoa : Option α
+  outVoa : α
+
+structure Out (α : Type) where
+  kept : List Nat
+  pinDb : α
+  effGain : α
+  attIn : α
+  nf : List (Option α)
+  ase : List α
+  gprofile : List α
+  margin : α
+  pch : List α
+  poutDb : α
+
+/-- input attenuation: `pch *= 1 / db2lin(in_voa)` -/
+def attenuate (inVoa : Option α) (p : α) : α :=
+  match inVoa with
+  | none => p
+  | some v => p * (((1:Nat) : α) / db2lin v)
+
+/-- output power of one channel: `(p + ase) * db2lin(g - out_voa)` -/
+def chanOut (p aseW g outVoa : α) : α := (p + aseW) * db2lin (g - outVoa)
+
+/-- `Edfa.__call__`; `none` = `ValueError` (no channel inside the amplifier band) -/
+def call (a : Amp α) (o : Oper α) (cs : List (Chan α)) : Option (Out α) :=
+  let kept := demux a.fMin a.fMax cs
+  match kept with
+  | [] => none
+  | c0 :: rest =>
+    let pin := kept.map (fun c => attenuate o.inVoa c.p)
+    let freqs := kept.map (fun c => ((c.f : Nat) : α))
+    let fmin : α := ((a.fMin : Nat) : α)
+    let fmax : α := ((a.fMax : Nat) : α)
+    let iDgt := interpolOnBand fmin fmax a.dgt freqs
+    let iRipple := interpolOnBand fmin fmax a.gainRipple freqs
+    let iNfRipple := interpolOnBand fmin fmax a.nfRipple freqs
+    let pinDb := watt2dbm (sumL pin)
+    let slotW : α := match rest with
+      | [] => ((c0.slot : Nat) : α)
+      | c1 :: _ => ((c1.f : Nat) : α) - ((c0.f : Nat) : α)
+    let eff := effGain o.gain a.pMax pinDb
+    let ld : Load α := { pinDb := pinDb, nch := ((kept.length : Nat) : α), slotWidth := slotW }
+    let (nfAvg, attIn) := ampNfAvg a.nf ld eff
+    let nf := iNfRipple.map (fun r => nfAvg.map (fun x => r + x))
+    let (gp, margin) := gainProfile freqs iDgt iRipple pin eff a.gainFlatmax o.tilt fmin fmax pinDb
+    let aseL := (kept.zip nf).map (fun p => ase p.1.baud ((p.1.f : Nat) : α) p.2)
+    let poutDb := watt2dbm (sumL ((pin.zip (aseL.zip gp)).map (fun p => (p.1 + p.2.1) * db2lin p.2.2)))
+    let pch := (pin.zip (aseL.zip gp)).map (fun p => chanOut p.1 p.2.1 p.2.2 o.outVoa)
+    some { kept := kept.map (fun c => c.f), pinDb := pinDb, effGain := eff, attIn := attIn, nf := nf,
+           ase := aseL, gprofile := gp, margin := margin, pch := pch, poutDb := poutDb }
+
+/-- `Multiband_amplifier.__call__`: every amplifier of the node receives the channels of its own band
+(`demuxed_spectral_information`), the outputs are muxed; `none` = ValueError (no amplifier got a channel).
+The result lists the per-amplifier outputs in the node's amplifier order (the muxed spectrum is their union
+sorted by frequency). -/
+def multiCall (amps : List (Amp α × Oper α)) (cs : List (Chan α)) : Option (List (Out α)) :=
+  let outs := amps.filterMap (fun ao => call ao.1 ao.2 cs)
+  if outs.isEmpty then none else some outs
+
+end
+end Gnpy.Edfa
